@@ -134,15 +134,11 @@ def flagIsclose (c : Cfg) (obs H F : List Rat) : Bool :=
     let tol := (1 : Rat) / 100000000 + (1 : Rat) / 100000 * Py.absQ t.1
     decide (Py.absQ (Py.absQ (t.2 - t.1) - tol) ≤ eps * (1 + Py.absQ t.1)))
 
-/-- step 2: equal valid values, or equal interpolated ranks (the order of the imputed values is then the sort's choice) -/
+/-- step 2: equal valid values (their ranks, hence the places of the imputed values, are then the sort's choice;
+    equal *interpolated* ranks are handled by the harness' canonicalisation) -/
 def flagStep2 (x : List (Option Rat)) : Bool :=
   let valid := x.filterMap id
-  if valid.length < 2 then false else
-  let idxInv := Py.whereTrue (x.map (fun v => v.isNone))
-  let idxValid := (Py.whereTrue (x.map (fun v => v.isSome))).map (fun (i : Nat) => (i : Rat))
-  let ranks := (rankOf valid).map (fun (i : Nat) => (i : Rat))
-  let interp := idxInv.map (fun (i : Nat) => interp1dExtrap idxValid ranks (i : Rat))
-  decide (valid.eraseDups.length ≠ valid.length) || decide (interp.eraseDups.length ≠ interp.length)
+  decide (valid.length ≥ 2) && decide (valid.length < x.length) && decide (valid.eraseDups.length ≠ valid.length)
 
 def showFlags (fs : List (String × Bool)) : String :=
   let l := (fs.filter (·.2)).map (·.1)
